@@ -1126,3 +1126,31 @@ impl<'de> DeserializeSeed<'de> for DeserializeTextResource {
             .map_err(|e| -> D::Error { serde::de::Error::custom(e) })
     }
 }
+
+#[cfg(feature = "verif-dump")]
+impl TextResource {
+    /// Read-only dump of the resource and its private indices (verification hook)
+    pub fn verif_dump(&self) -> serde_json::Value {
+        serde_json::json!({
+            "handle": self.intid.map(|h| h.as_usize()),
+            "id": self.id,
+            "filename": self.filename,
+            "text": self.text,
+            "textlen": self.textlen,
+            "changed": self.changed.read().map(|x| *x).ok(),
+            "textselections": self.textselections.iter().map(|t| match t {
+                Some(t) => serde_json::json!([t.handle().map(|h| h.as_usize()), t.begin(), t.end()]),
+                None => serde_json::Value::Null,
+            }).collect::<Vec<_>>(),
+            "positionindex": self.positionindex.0.iter().map(|(pos, item)| serde_json::json!({
+                "pos": pos,
+                "bytepos": item.bytepos,
+                "begin2end": item.begin2end.iter().map(|(e, h)| serde_json::json!([e, h.as_usize()])).collect::<Vec<_>>(),
+                "end2begin": item.end2begin.iter().map(|(b, h)| serde_json::json!([b, h.as_usize()])).collect::<Vec<_>>(),
+            })).collect::<Vec<_>>(),
+            "byte2charmap": self.byte2charmap.iter().map(|(b, c)| serde_json::json!([b, c])).collect::<Vec<_>>(),
+            "milestone_interval": self.config.milestone_interval,
+            "serialize_mode": format!("{:?}", self.config.serialize_mode.read().map(|x| *x).ok()),
+        })
+    }
+}
